@@ -41,6 +41,7 @@ type c12Obs struct {
 	H []int64  `json:"h"` // handle table
 	C []int64  `json:"c"` // cached storages
 	B []int64  `json:"b"` // account buffer
+	AH []int64 `json:"ah"` // AccountState handles
 	R []string `json:"r"` // roots
 }
 
@@ -60,6 +61,7 @@ type c12Env struct {
 	handles []*statedb.ContractState
 	snaps   []BlockSnapshot
 	csnaps  []c12CSnap
+	ahs     []*AccountState
 	known   map[string]*types.State // leaf hash -> account state seen in the account buffer
 	vhash   map[string]int64        // leaf hash -> storage value id
 }
@@ -144,6 +146,30 @@ func (e *c12Env) exec(op []interface{}) {
 		case "csnap":
 			e.csnaps = append(e.csnaps, c12CSnap{h, cs.Snapshot()})
 		}
+	case "aget":
+		as, err := GetAccountState(e.ua[argI(op, 1)], e.sdb)
+		if err != nil {
+			panic(err)
+		}
+		e.ahs = append(e.ahs, as)
+	case "aadd", "asub", "aput", "areset":
+		h := argI(op, 1)
+		if h < 0 || h >= len(e.ahs) {
+			panic(c12OOC{})
+		}
+		as := e.ahs[h]
+		switch op[0].(string) {
+		case "aadd":
+			as.AddBalance(big.NewInt(int64(argI(op, 2))))
+		case "asub":
+			as.SubBalance(big.NewInt(int64(argI(op, 2))))
+		case "aput":
+			if err := as.PutState(); err != nil {
+				panic(err)
+			}
+		case "areset":
+			as.Reset()
+		}
 	case "snap":
 		e.snaps = append(e.snaps, e.bs.Snapshot())
 	case "rb":
@@ -190,9 +216,9 @@ func (e *c12Env) exec(op []interface{}) {
 	case "reopen":
 		e.sdb = statedb.NewStateDB(e.store, e.sdb.GetRoot(), false)
 		e.bs = NewBlockState(e.sdb)
-		e.handles, e.snaps, e.csnaps = nil, nil, nil
+		e.handles, e.snaps, e.csnaps, e.ahs = nil, nil, nil, nil
 	case "clear":
-		e.handles, e.csnaps = nil, nil
+		e.handles, e.csnaps, e.ahs = nil, nil, nil
 	default:
 		panic("unknown op")
 	}
@@ -226,8 +252,8 @@ func encOpt(nums []int64, b []byte) []int64 {
 
 func (e *c12Env) observe() c12Obs {
 	e.learn()
-	var n, secA, secH, secC []int64
-	var r1, r3, rb []string
+	var n, secA, secH, secC, secAH []int64
+	var r1, r3, rb, r4 []string
 	for _, aid := range e.aids {
 		st, err := e.sdb.GetState(aid)
 		if err != nil {
@@ -306,8 +332,17 @@ func (e *c12Env) observe() c12Obs {
 			rb = append(rb, "unknown:"+hex.EncodeToString(vals[i]))
 		}
 	}
-	r := append(append(append(r1, r3...), rb...), hex.EncodeToString(e.sdb.GetRoot()))
-	return c12Obs{A: secA, H: secH, C: secC, B: n, R: r}
+	secAH = append(secAH, int64(len(e.ahs)))
+	for _, as := range e.ahs {
+		isNew := int64(0)
+		if as.IsNew() {
+			isNew = 1
+		}
+		secAH = append(secAH, as.Balance().Int64(), isNew)
+		r4 = append(r4, hex.EncodeToString(as.StorageRoot()))
+	}
+	r := append(append(append(append(r1, r3...), rb...), r4...), hex.EncodeToString(e.sdb.GetRoot()))
+	return c12Obs{A: secA, H: secH, C: secC, B: n, AH: secAH, R: r}
 }
 
 func (e *c12Env) stepObs(op []interface{}) (o c12Obs) {
